@@ -78,15 +78,21 @@ func nextLetters(e *env, maxCands int, maxVersion uint64) []L {
 		sc := m.candsOf(v, node.RootTypeState)
 		ic := m.candsOf(v, node.RootTypeIO)
 		// commits (a repeated root is a legal commit but adds nothing new to enumerate twice)
-		if m.ncommits[v] < maxCands {
+		if m.ncommits[v] < maxCands && len(m.cands[v+1]) == 0 {
 			for _, b := range batchNames {
 				out = append(out, L{Op: "commit", V: v, Batch: b})
 			}
 		}
-		if len(ic) == 0 && len(sc) > 0 {
+		if len(ic) == 0 && len(sc) > 0 && len(m.cands[v+1]) == 0 {
 			out = append(out, L{Op: "commit", V: v, Batch: "add", Type: "io"}, L{Op: "commit", V: v, Batch: "addshared", Type: "io"})
 			if thoroughTier {
 				out = append(out, L{Op: "commit", V: v, Batch: "add2", Type: "io"})
+			}
+		}
+		// commit one version ahead of finalization (child of the single candidate)
+		if len(sc) == 1 && m.ncommits[v] == 1 && v+1 <= maxVersion && m.ncommits[v+1] < maxCands {
+			for _, b := range []string{"add", "mod"} {
+				out = append(out, L{Op: "commit", V: v + 1, Batch: b})
 			}
 		}
 		for i := range sc {
@@ -96,7 +102,7 @@ func nextLetters(e *env, maxCands int, maxVersion uint64) []L {
 			}
 		}
 	}
-	if m.last > m.earliest && m.earliest > 0 && len(m.cands[m.last+1]) == 0 {
+	if m.last > m.earliest && m.earliest > 0 && len(m.cands[m.last+1]) == 0 && len(m.cands[m.last+2]) == 0 {
 		out = append(out, L{Op: "prune", V: m.earliest})
 	}
 	return out
